@@ -91,7 +91,8 @@ func gen(g *hx.Gen) {
 
 	// corpus: the known finding C09:chromatic-index-byte-wrap (KNOWN_FINDINGS.txt).  ChromaticIndex
 	// alone on the star K_{1,256} and on a tree with a vertex of degree 257 (see big.go).
-	g.Emit(gx.CaseLine(gx.Empty(1), 0, []string{"B:256.0"}))
+	// (third field 1 = also run the extracted model on it and compare the edge array, 17 s: thorough tier)
+	g.Emit(gx.CaseLine(gx.Empty(1), 0, []string{[]string{"B:256.0", "B:256.0.1"}[g.Pick(0, 1)]}))
 	g.Emit(gx.CaseLine(gx.Empty(1), 0, []string{"B:257.12"}))
 
 	// large graphs with answers known by construction, at sizes / degrees / counter values around
@@ -122,12 +123,12 @@ func gen(g *hx.Gen) {
 
 	// volume where the branch and bound backtracks: batches of planted k-partite graphs checked
 	// without an exponential oracle (planted.go) ...
-	batches := g.Pick(40, 600)
+	batches := g.Pick(24, 600)
 	for i := 0; i < batches; i++ {
 		g.Emit(gx.CaseLine(gx.Empty(1), 0, []string{gx.TokString('P', []int{r.Intn(1 << 30), 1000})}))
 	}
 	// ... and single planted graphs, n = 12..22, through the extracted proved model of dfsDsatur
-	singles := g.Pick(400, 5000)
+	singles := g.Pick(300, 5000)
 	for i := 0; i < singles; i++ {
 		gr, _ := plantedGraph(r, 12, 22)
 		g.Emit(gx.CaseLine(gr, 2, gx.Variants(r, gr.N, 3, "ds")[1:]))
